@@ -11,11 +11,13 @@ import (
 	"math/big"
 	"math/rand"
 	"runtime"
+	"sort"
 	"sync"
 	"time"
 
 	"perun.network/go-perun/channel"
 	"perun.network/go-perun/client"
+	"perun.network/go-perun/wire"
 
 	"verif/internal/gen"
 	"verif/internal/party"
@@ -37,6 +39,9 @@ type Sub struct {
 	Init  [][]int64 `json:"initial_balances"`
 	Steps []Step    `json:"payments"`
 	Close bool      `json:"closed_cooperatively"`
+	// FinalPay is what participant 0 pays in the finalizing update (a last payment bundled
+	// with the final flag), clamped to its balance.
+	FinalPay int64 `json:"final_update_pays"`
 }
 
 // Scenario is one generated program.
@@ -48,6 +53,7 @@ type Scenario struct {
 	Steps       []Step    `json:"payments"`
 	Sub         *Sub      `json:"sub_channel,omitempty"`
 	FinalLast   bool      `json:"last_state_final"`
+	FinalPay    int64     `json:"final_update_pays"`
 	SettleOrder int       `json:"settle_order"` // 0: A then B, 1: B then A, 2: concurrently
 	Secondary   [2]bool   `json:"secondary"`
 	Dur         uint64    `json:"challenge_duration"`
@@ -88,6 +94,9 @@ func Generate(rng *rand.Rand) Scenario {
 		return out
 	}
 	sc.Steps = steps(rng.Intn(13))
+	if rng.Intn(2) == 0 {
+		sc.FinalPay = int64(1 + rng.Intn(4))
+	}
 	if rng.Intn(3) == 0 {
 		// funding a sub-channel takes funds of both parties in one parent update, which the
 		// payment app's rule forbids: sub-channels need an app-less parent
@@ -98,6 +107,9 @@ func Generate(rng *rand.Rand) Scenario {
 			sub.Init[a] = []int64{int64(rng.Intn(10)), int64(rng.Intn(10))}
 		}
 		sub.Steps = steps(rng.Intn(6))
+		if rng.Intn(2) == 0 {
+			sub.FinalPay = int64(1 + rng.Intn(4))
+		}
 		sc.Sub = sub
 		if !sub.Close {
 			// a ledger channel with an open sub-channel cannot be closed cooperatively
@@ -138,6 +150,23 @@ type Run struct {
 	Step int
 	// SubStep is the index of the sub-channel step being executed (-1 outside).
 	SubStep int
+	reqs    map[string]string // update requests handed to a client: "id|version" -> description
+	answers map[string]bool   // "id|version" answered with an accept or a reject message
+}
+
+// Unanswered lists update requests that were handed to a client but never answered with an
+// accept or a reject message. Only meaningful at quiescence (WaitIdle returned true).
+func (r *Run) Unanswered() []string {
+	r.mu.Lock()
+	defer r.mu.Unlock()
+	var out []string
+	for k, d := range r.reqs {
+		if !r.answers[k] {
+			out = append(out, d)
+		}
+	}
+	sort.Strings(out)
+	return out
 }
 
 type decision struct {
@@ -162,8 +191,22 @@ func isTimeout(err error) bool {
 
 // New prepares a world for the scenario.
 func New(rng *rand.Rand, sc Scenario) *Run {
-	r := &Run{Sc: sc, pending: map[string][]decision{}, Step: -1, SubStep: -1}
+	r := &Run{Sc: sc, pending: map[string][]decision{}, Step: -1, SubStep: -1, reqs: map[string]string{}, answers: map[string]bool{}}
 	r.W = party.NewWorld(rng, sc.Assets, sc.Noise)
+	r.W.Bus.AddTap(func(e *wire.Envelope) {
+		r.mu.Lock()
+		defer r.mu.Unlock()
+		switch m := e.Msg.(type) {
+		case *client.ChannelUpdateMsg:
+			if m.State != nil {
+				r.reqs[fmt.Sprintf("%x|%d", m.State.ID, m.State.Version)] = fmt.Sprintf("update of channel %x to version %d", m.State.ID[:3], m.State.Version)
+			}
+		case *client.ChannelUpdateAccMsg:
+			r.answers[fmt.Sprintf("%x|%d", m.ChannelID, m.Version)] = true
+		case *client.ChannelUpdateRejMsg:
+			r.answers[fmt.Sprintf("%x|%d", m.ChannelID, m.Version)] = true
+		}
+	})
 	r.P[0], r.P[1] = r.W.NewParty("A", 1000), r.W.NewParty("B", 1000)
 	for i := range r.P {
 		i := i
@@ -230,6 +273,13 @@ func (r *Run) Open() bool {
 	}
 	r.hook("after-open")
 	return true
+}
+
+func clamp(want int64, have *big.Int) int64 {
+	if have.IsInt64() && have.Int64() < want {
+		return have.Int64()
+	}
+	return want
 }
 
 func (r *Run) fail(what string, err error) {
@@ -305,8 +355,8 @@ func (r *Run) Payments() bool {
 	}
 	r.hook("after-steps")
 	if r.Sc.FinalLast && !r.SkipRest {
-		// a final state: a zero payment by A with the final flag, always accepted
-		r.pay(r.Ch, Step{Who: 0, Asset: 0, Amount: 0, Accept: true}, true)
+		// a final state: a last (possibly zero) payment by A with the final flag, always accepted
+		r.pay(r.Ch, Step{Who: 0, Asset: 0, Amount: clamp(r.Sc.FinalPay, r.Ch[0].State().Balances[0][r.Ch[0].Idx()]), Accept: true}, true)
 		if r.Failed != "" {
 			return false
 		}
@@ -364,7 +414,7 @@ func (r *Run) subChannel() bool {
 		return true
 	}
 	// finalize (participant 0 proposes) and settle into the parent: both sides call Settle
-	r.pay(r.SubCh, Step{Who: 0, Asset: 0, Amount: 0, Accept: true}, true)
+	r.pay(r.SubCh, Step{Who: 0, Asset: 0, Amount: clamp(sub.FinalPay, r.SubCh[0].State().Balances[0][r.SubCh[0].Idx()]), Accept: true}, true)
 	if r.Failed != "" {
 		return false
 	}
